@@ -11,7 +11,7 @@
      - MAX_BLOCKFILE_SIZE = 0x8000000 (128 MiB): bitcoin/src/node/blockstorage.h
      - block file record: magic (4) | block size uint32 LE (4) | block ; files blkNNNNN.dat (5 decimal digits) *)
 From Coq Require Import ZArith List.
-Require Import Bits.Lib.Bytes.
+Require Import Bits.Lib.Bytes Bits.Lib.CompactSize.
 Import ListNotations.
 Import Coq.Init.Byte.
 Local Open Scope Z_scope.
@@ -66,3 +66,31 @@ Definition parser_commands : list bytes :=
   ; [x73;x65;x6e;x64;x63;x6d;x70;x63;x74]               (* sendcmpct *)
   ; [x76;x65;x72;x73;x69;x6f;x6e]                       (* version *)
   ].
+
+(* The version message payload, https://developer.bitcoin.org/reference/p2p_networking.html#version :
+   version int32 | services uint64 | timestamp int64 | addr_recv services uint64 | addr_recv IP (16 bytes, IPv6
+   network order) | addr_recv port uint16 BIG endian | addr_trans services | addr_trans IP | addr_trans port |
+   nonce uint64 | user_agent bytes (CompactSize) | user_agent | start_height int32 | relay bool (OPTIONAL, BIP37).
+   All integers little endian unless stated; only non-negative values are considered here. *)
+Record version_msg : Type := {
+  m_protocol_version : Z; m_services : Z; m_timestamp : Z;
+  m_recv_services : Z; m_recv_ip : bytes; m_recv_port : Z;
+  m_trans_services : Z; m_trans_ip : bytes; m_trans_port : Z;
+  m_nonce : Z; m_user_agent : bytes; m_start_height : Z;
+  m_relay : option bool
+}.
+
+Definition spec_version_payload (m : version_msg) : bytes :=
+  to_le 4 (m_protocol_version m) ++ to_le 8 (m_services m) ++ to_le 8 (m_timestamp m)
+  ++ to_le 8 (m_recv_services m) ++ m_recv_ip m ++ to_be 2 (m_recv_port m)
+  ++ to_le 8 (m_trans_services m) ++ m_trans_ip m ++ to_be 2 (m_trans_port m)
+  ++ to_le 8 (m_nonce m) ++ cs_enc (Z.of_nat (length (m_user_agent m))) ++ m_user_agent m
+  ++ to_le 4 (m_start_height m)
+  ++ match m_relay m with Some true => [x01] | Some false => [x00] | None => [] end.
+
+(* ranges of the fields (what the wire format can carry) *)
+Definition version_msg_wf (m : version_msg) : Prop :=
+  0 <= m_protocol_version m < 2 ^ 32 /\ 0 <= m_services m < 2 ^ 64 /\ 0 <= m_timestamp m < 2 ^ 64 /\
+  0 <= m_recv_services m < 2 ^ 64 /\ length (m_recv_ip m) = 16%nat /\ 0 <= m_recv_port m < 2 ^ 16 /\
+  0 <= m_trans_services m < 2 ^ 64 /\ length (m_trans_ip m) = 16%nat /\ 0 <= m_trans_port m < 2 ^ 16 /\
+  0 <= m_nonce m < 2 ^ 64 /\ 0 <= m_start_height m < 2 ^ 32.
